@@ -82,7 +82,7 @@ def build(r):
     q.conj = []
     k0 = 100 + r.randint(0, 50) * 10
     kinds = [r.choice(['model-eq', 'model-eq', 'table-cmp', 'table-cmp', 'table-cmp-rev', 'table-in', 'model-gt', 'not-model-eq', 'not-table', 'or-mix',
-                       'func-wrapped', 'cross', 'nested-and', 'model-eq-str', 'model-eq-expr'])
+                       'func-wrapped', 'cross', 'nested-and', 'model-eq-str', 'model-eq-expr', 'model-eq-nonconst'])
              for _ in range(r.randint(0, 4))]
     used_cols = set()
     for i, k in enumerate(kinds):
@@ -95,6 +95,15 @@ def build(r):
             lit = str(c) if k == 'model-eq' else f"'s{c}'"
             text = f'm.{col} = {lit}' if r.random() < 0.8 else f'{lit} = m.{col}'
             q.conj.append({'kind': 'model-eq', 'text': text, 'consts': [val], 'model_arg': (col, val)})
+        elif k == 'model-eq-nonconst':
+            # equality of a model column with something that is not a constant (a session variable, a function call): a condition, not an argument
+            col = r.choice([x for x in ['v1', 'v2'] if x not in used_cols] or ['v3'])
+            used_cols.add(col)
+            w = 'thr_' + ''.join('abcdefghij'[int(d)] for d in str(c))      # (variable names take no digits)
+            rhs = r.choice([f'@{w}', f'@@{w}', f'fn{c}()', f'@{w}'])
+            text = f'm.{col} = {rhs}' if r.random() < 0.7 else f'{rhs} = m.{col}'
+            q.conj.append({'kind': 'model-eq-nonconst:' + ('variable' if rhs[0] == '@' else 'function'), 'text': text, 'consts': [], 'stay': True,
+                           'col': col, 'stay_text': w if rhs[0] == '@' else f'fn{c}'})
         elif k == 'model-eq-expr':
             # the value is written as an expression around a literal (cast, typed literal, parentheses, arithmetic): the planner may
             # evaluate it into an argument or leave the condition as a filter - what it may not do is lose it
@@ -145,6 +154,14 @@ def build(r):
     s = f'SELECT {targets} FROM {frm}'
     if q.conj:
         s += ' WHERE ' + ' AND '.join(c['text'] for c in q.conj)
+    q.t_alias = 't'
+    if r.random() < 0.12:
+        # the first table's alias is spelled like the (aliased) model's own name: the model is visible under its alias only
+        import re as _re
+        q.t_alias = r.choice([q.model_name, q.model_name.upper()])
+        s = _re.sub(r'\bt\.', q.t_alias + '.', s).replace(' AS t ', f' AS {q.t_alias} ')
+        if q.columns_map:
+            q.columns_map = {k: [q.t_alias.lower(), v[1]] for k, v in q.columns_map.items()}
     q.using = {}
     if r.random() < 0.4:
         # (names that begin with the characters of the alias prefix: cutting the prefix must cut exactly the prefix)
@@ -257,7 +274,7 @@ def judge(q, plan):
         if col in flex:
             continue
         if col not in want_args:
-            src_c = next((c['kind'] for c in q.conj if val in c['consts']), 'unknown')
+            src_c = next((c['kind'] for c in q.conj if val in c['consts'] or c.get('col') == col), 'unknown')
             out.append(({'cond': 'non-argument-became-argument', 'conjunct': src_c}, {'column': col, 'value': val, 'row_dict': repr(ap.row_dict)}))
     # (c) what is pushed into fetches
     for f in fetches:
@@ -326,6 +343,8 @@ def judge(q, plan):
                 out.append(({'cond': 'unconsumed-condition-lost', 'conjunct': 'nested-and'}, {}))
         else:
             missing = [k for k in c['consts'] if k not in outer_consts]
+            if 'stay_text' in c and not any(c['stay_text'] in s.query.where.to_string() for s in outer):
+                missing = [c['stay_text']]
             if missing:
                 out.append(({'cond': 'unconsumed-condition-lost', 'conjunct': c['kind']}, {'outer': [s.query.where.to_string()[:200] for s in outer]}))
             elif c.get('under') == 'not':
@@ -382,6 +401,8 @@ def run_shard(ctx):
             continue
         acc.count('plans_checked')
         acc.add('shapes', q.shape)
+        if q.t_alias != 't':
+            acc.count('table_alias_spelled_like_model')
         for c in q.conj:
             acc.add('conjunct_kinds', c['kind'])
         if q.has_using:
